@@ -29,6 +29,7 @@ ORACLES = [
 ]
 ASSUMPTIONS = [
     "behaviour after an address fails with an errno other than refused/unreachable is don't-care; URL fragments and empty queries are not generated",
+    "a ws/wss scheme spelled with upper-case letters may either be refused with ValueError before any network activity or be treated exactly like its lower-case form",
     "choice of the SSL dispatcher for wss is observed in C13 (needs run_forever)",
 ]
 
@@ -131,6 +132,12 @@ def run_connect(case):
                 ws.connect(url, timeout=timeout)
         except Exception as e:
             raised = e
+    if parts.get("scheme_spelling") and isinstance(raised, ValueError) and not net.resolver_calls and not net.attempts:
+        # a scheme spelled with upper-case letters may be refused outright (before any network activity) ...
+        _cls(obs, dict(case, mode="connect"), parts, pattern)
+        obs.cls = obs.cls + ("mixed-case-scheme:refused",)
+        return obs
+    # ... or treated exactly like its lower-case form (never like the other scheme)
     # resolver
     if not net.resolver_calls:
         obs.fail("target|resolver-not-called", f"{url}")
@@ -234,6 +241,9 @@ def cases(draw):
     if m <= 5:
         return {"mode": "parse", "url": parts}
     pattern = draw(st.lists(st.sampled_from(OUTCOMES), min_size=1, max_size=4))
+    if draw(st.integers(0, 5)) == 0:
+        sp = parts["scheme"]
+        parts["scheme_spelling"] = draw(st.sampled_from([sp.upper(), sp.capitalize(), sp[:-1] + sp[-1].upper()]))
     return {"mode": "connect", "url": parts, "addrs": pattern, "api": draw(st.sampled_from(["connect", "create_connection"])),
             "timeout": draw(st.sampled_from([None, 0.5, 3, 7.25, 60])),
             "sockopt": draw(st.lists(st.sampled_from([[S.SOL_SOCKET, S.SO_REUSEADDR, 1], [S.SOL_TCP, S.TCP_NODELAY, 0], [S.SOL_SOCKET, S.SO_RCVBUF, 4096]]), max_size=2))}
@@ -246,6 +256,14 @@ def pattern_cases():
                 parts = {"scheme": scheme, "host": "multi.test", "hostkind": "name", "port": None if n % 2 else 9000 + n, "path": "/p;v=1", "query": "a=1", "userinfo": None}
                 yield {"mode": "connect", "url": parts, "addrs": list(pat), "api": "connect" if (n + len(scheme)) % 2 else "create_connection",
                        "timeout": (None, 2.5, 10)[n % 3], "sockopt": [[S.SOL_SOCKET, S.SO_REUSEADDR, 1]] if n > 2 else []}
+
+
+def scheme_case_cases():
+    for sp, sch in (("WSS", "wss"), ("Wss", "wss"), ("wsS", "wss"), ("wSs", "wss"), ("WS", "ws"), ("Ws", "ws"), ("wS", "ws")):
+        for port in (None, 8443):
+            for api in ("connect", "create_connection"):
+                parts = {"scheme": sch, "scheme_spelling": sp, "host": "case.test", "hostkind": "name", "port": port, "path": "/p", "query": None, "userinfo": None}
+                yield {"mode": "connect", "url": parts, "addrs": ["accept"], "api": api, "timeout": 3, "sockopt": []}
 
 
 def jobs(tier, seed):
@@ -264,5 +282,7 @@ def run_job(job, coll):
         for url, kind in BAD:
             for api in ("connect", "create_connection"):
                 coll.check({"bad": url, "kind": kind, "api": api}, run_case)
+        for c in scheme_case_cases():
+            coll.check(c, run_case)
     else:
         hyp_run(coll, cases(), run_case, job["seed"], job["n"])
